@@ -233,6 +233,7 @@ type GlobalInv struct {
 }
 
 type SpecFile struct {
+	Imports    map[string]string // alias -> import path
 	GlobalInvs []*GlobalInv
 	Path       string
 	PkgName    string // package whose scope resolves unqualified names ("" for prelude)
@@ -962,7 +963,7 @@ var clauseKeywords = map[string]bool{
 	"maypanic": true, "assigns": true, "loop": true, "inline": true, "trusted": true,
 	"pure": true, "type": true, "spec": true, "unfold": true, "axiom": true, "extern": true,
 	"iface": true, "lemma": true, "let": true, "assert": true, "assume": true, "level": true,
-	"package": true, "nobody": true, "call": true, "defines": true, "global": true, "maintains": true, "purefn": true, "purecalls": true,
+	"package": true, "nobody": true, "call": true, "defines": true, "global": true, "maintains": true, "purefn": true, "purecalls": true, "import": true,
 }
 
 type rawClause struct {
@@ -1088,6 +1089,15 @@ func ParseSpecText(text, path string, goFile bool) (*SpecFile, error) {
 	}
 	for _, rc := range rcs {
 		switch rc.kw {
+		case "import":
+			fs := strings.Fields(rc.text)
+			if len(fs) != 2 {
+				return nil, fmt.Errorf("%s:%d: import alias path", path, rc.line)
+			}
+			if sf.Imports == nil {
+				sf.Imports = map[string]string{}
+			}
+			sf.Imports[fs[0]] = fs[1]
 		case "package":
 			sf.PkgName = strings.TrimSpace(rc.text)
 		case "func", "method", "lemma", "extern":
